@@ -1,4 +1,4 @@
-import TWV.Driver.Ops
+import TWV.Driver.Dispatch
 
 partial def loop (hin : IO.FS.Stream) (hout : IO.FS.Stream) : IO Unit := do
   let line ← hin.getLine
